@@ -75,6 +75,7 @@ def run(check, ctx):
     # the prime filters of RSA.generate: both primes lie in the interval that makes the modulus exactly `bits` long
     from .c05_extra import rsa_generate_filters
     rsa_generate_filters(check, repo)
+    prime_generation_tapes(check, repo)
     ORDER, PRIME = 1000003, 1000033
     RF = ABuiltin("vstat.rf")
     DSS = "Crypto.Signature.DSS"
@@ -282,3 +283,66 @@ def dsa_private_key_rows(check, repo):
     check.ob("K-pw", "K-pw|dsa.generate.x", not wrong, mod.path, fn.lineno,
              extracted="; ".join(wrong[:3]) if wrong else "%d values of c around multiples of q and q-1: x = (c mod (q-1)) + 1, c drawn with N+64 bits" % n,
              expected="FIPS 186-4 B.1.1: 1 <= x <= q-1 for every c (x = c mod q can be 0 and is biased differently)")
+
+
+def prime_generation_tapes(check, repo, prop="C18"):
+    """Primality.generate_probable_prime as a function of what it draws: with Integer.random replaced by a tape of
+    candidates and the primality test / prime filter by scripted verdicts, the result is exactly the first drawn
+    candidate (made odd) that passed both - never a value derived from a rejected candidate (an incremental search
+    p += 2 selects primes with probability proportional to the gap before them, and can leave the requested bit
+    length) - and every value handed to the filter and the test is a fresh draw."""
+    PR = "Crypto.Math.Primality"
+    mod = repo.module(PR)
+    fn = repo.func(mod, "generate_probable_prime")
+    BITS = 160
+    draws = [(1 << 159) + 0x1000 * (j + 1) + (j % 2) for j in range(8)]
+    draws[0] = (1 << 160) - 1                       # the largest candidate: p + 2 would have 161 bits
+    wrong = []
+    n = 0
+    scripts = [
+        ("first candidate prime", [("ok", 1)]),
+        ("one composite, then a prime", [("ok", 0), ("ok", 1)]),
+        ("three composites, then a prime", [("ok", 0), ("ok", 0), ("ok", 0), ("ok", 1)]),
+        ("filter rejects two, third is prime", [("no", None), ("no", None), ("ok", 1)]),
+        ("rejections and composites interleaved", [("ok", 0), ("no", None), ("ok", 0), ("no", None), ("ok", 1)]),
+    ]
+    for what, script in scripts:
+        drawn, filtered, tested = [], [], []
+
+        def m_random(i, a, kw, st, node):
+            if kw.get("exact_bits") != BITS or len(drawn) >= len(draws):
+                return Unknown("int")
+            drawn.append(draws[len(drawn)])
+            return drawn[-1]
+
+        def m_filter(i, a, kw, st, node):
+            filtered.append(a[0] if a else None)
+            k = len(filtered) - 1
+            return script[k][0] == "ok" if k < len(script) else True
+
+        def m_test(i, a, kw, st, node):
+            tested.append(a[0] if a else None)
+            oks = [x for x in script if x[0] == "ok"]
+            k = len(tested) - 1
+            return oks[k][1] if k < len(oks) else 1
+        models = {PR + ".test_probable_prime": m_test, "vstat.filter": m_filter}
+        for cn in ("Crypto.Math._IntegerBase.IntegerBase", "Crypto.Math._IntegerGMP.IntegerGMP",
+                   "Crypto.Math._IntegerNative.IntegerNative", "Crypto.Math._IntegerCustom.IntegerCustom"):
+            models[cn + ".random"] = m_random
+        it = Interp(repo, max_depth=1, extra_models=models)
+        it.unroll_limit = 40
+        res = it.run(mod, fn, {"kwargs": {"exact_bits": BITS, "randfunc": ABuiltin("vstat.rf"), "prime_filter": ABuiltin("vstat.filter")}})
+        n += 1
+        rets = res.returns()
+        want_idx = len(script) - 1
+        want = draws[want_idx] | 1
+        got = rets[0].value if len(rets) == 1 and not res.raises() else None
+        if got != want:
+            off = next((j for j, d in enumerate(draws) if isinstance(got, int) and (d | 1) == got), None)
+            wrong.append("%s: returns %s, expected candidate #%d made odd" % (
+                what, ("candidate #%d" % (off + 1)) if off is not None else (("a value that was never drawn (%d bits, draw #1 %+d)" % (got.bit_length(), got - (draws[0] | 1))) if isinstance(got, int) else "%d exits / %s" % (len(rets), res.raise_classes())), want_idx + 1))
+        elif filtered != [d | 1 for d in draws[:len(script)]] or tested != [draws[j] | 1 for j, x in enumerate(script) if x[0] == "ok"]:
+            wrong.append("%s: the filter / the test see values other than the fresh draws made odd" % what)
+    check.ob("K-pw", "K-pw|prime.generation.tape", not wrong, mod.path, fn.lineno,
+             extracted="; ".join(wrong[:3]) if wrong else "%d scripted histories: the result is the first drawn candidate | 1 that passed the filter and the test; every tested value is a fresh draw of exact_bits bits" % n,
+             expected="generate_probable_prime returns one of the uniformly drawn candidates of exactly exact_bits bits (FIPS 186-4 B.3.3 style rejection), never a value computed from a rejected one")
